@@ -211,31 +211,23 @@ Qed.
 
 (* ------------------------------------------------------------------ administration ids *)
 
-Lemma admid_loop_walk l : forall cs ca,
-  (forall e, In e l -> fst (fst e) <> 4) -> admid_loop cs ca l = admid_walk_from cs ca l.
+(* since fix 1fa817f the loop of get_admid is the reference walk: EVID 1 and 4 are dose events *)
+Lemma admid_loop_walk l : forall cs ca, admid_loop cs ca l = admid_walk_from cs ca l.
 Proof.
-  induction l as [|[[ev a] sub] l IH]; intros cs ca H; [reflexivity|]. cbn [admid_loop admid_walk_from].
-  assert (ev <> 4) by (apply (H (ev, a, sub)); left; reflexivity).
-  assert (ev =? 4 = false) as -> by (apply Z.eqb_neq; assumption). rewrite orb_false_r.
-  assert (H' : forall e, In e l -> fst (fst e) <> 4) by (intros e He; apply H; right; exact He).
-  destruct (cs =? sub); [destruct (ev =? 1)|]; rewrite IH by exact H'; reflexivity.
+  induction l as [|[[ev a] sub] l IH]; intros cs ca; [reflexivity|]. cbn [admid_loop admid_walk_from].
+  destruct (cs =? sub); [destruct ((ev =? 1) || (ev =? 4))|]; rewrite IH; reflexivity.
 Qed.
 
-Lemma in_combine3 {A B C} (x : A * B * C) la lb lc : In x (combine (combine la lb) lc) -> In (fst (fst x)) la.
-Proof.
-  destruct x as [[a b] c]. intros H. apply in_combine_l in H. apply in_combine_l in H. exact H.
-Qed.
-
-(* get_admid = the admid of the latest dose event carried forward, when no record is a
-   reset-and-dose event (EVID 4) and EVID is what NM-TRAN would supply *)
+(* get_admid = the admid of the latest dose event (EVID 1 or 4) carried forward, when EVID is what
+   NM-TRAN would supply *)
 Lemma admid_spec_lemma mi d cmt ref :
   has_admid (ds_sch d) = false ->
   match ds_rows d with r0 :: _ => r_lab r0 = 0 | [] => False end ->
-  guard_evid d = true -> forallb (fun v => negb (v =? 4)) (evid_walk d) = true ->
+  guard_evid d = true ->
   cmt_impl mi d = Ok cmt -> admid_ref mi d = Ok ref ->
   admid_impl mi d = Ok (combine (map fst cmt) ref).
 Proof.
-  intros Ha H0 Ge G4 Ec Er. unfold admid_impl, admid_ref in *. rewrite Ha. rewrite Ec in *.
+  intros Ha H0 Ge Ec Er. unfold admid_impl, admid_ref in *. rewrite Ha. rewrite Ec in *.
   rewrite (evid_spec_lemma d Ge).
   destruct (ds_rows d) as [|r0 rows] eqn:Erows; [destruct H0|]. rewrite H0.
   destruct (map (fun lv : Z * Z => zreplace _ (snd lv)) cmt) as [|a0 adm] eqn:Eadm.
@@ -248,7 +240,5 @@ Proof.
         destruct (has_evid (ds_sch d)); [apply map_length|]. destruct (mdv_col (ds_sch d)); [apply map_length|].
         rewrite combine_length, map_length. clear. generalize 0. induction (ds_rows d); intros k; cbn; [reflexivity|]. rewrite IHl. lia. }
     rewrite Erows in L. apply (f_equal (@length Z)) in Eadm. rewrite map_length in Eadm. cbn in *. lia.
-  - cbn [Z.eqb negb]. injection Er as <-. f_equal. f_equal. apply admid_loop_walk.
-    intros e He. apply in_combine3 in He. rewrite forallb_forall in G4. specialize (G4 _ He).
-    apply negb_true_iff in G4. apply Z.eqb_neq in G4. exact G4.
+  - cbn [Z.eqb negb]. injection Er as <-. rewrite admid_loop_walk. reflexivity.
 Qed.
